@@ -28,14 +28,15 @@ class Ctx:
         self.samples = []
         self.counts = {}
 
-    def check(self, clause, ok, witness=None, detail='', nontrivial_key=None):
+    def check(self, clause, ok, witness=None, detail='', nontrivial_key=None, wclass=None):
         self.evals += 1
         self.counts[clause] = self.counts.get(clause, 0) + 1
         if nontrivial_key is not None:
             self.nontrivial.add(str(nontrivial_key))
         if not ok:
             wid = digest([self.desc.to_json() if self.desc is not None else None, clause, witness])
-            wclass = f'{self.desc.label if self.desc is not None else ""}|{witness[0] if isinstance(witness, (list, tuple)) and witness else ""}'
+            # witness class: corpus member | encoder, unless the caller names the failing situation itself
+            wclass = wclass or f'{self.desc.label if self.desc is not None else ""}|{witness[0] if isinstance(witness, (list, tuple)) and witness else ""}'
             per_class = sum(1 for v in self.violations if v['clause'] == clause and v['witness_class'] == wclass)
             # at most 3 witnesses are kept per (clause, witness class); classes themselves are never dropped
             if not any(v['witness_id'] == wid for v in self.violations) and per_class < 3:
